@@ -8,11 +8,21 @@
 //! to expose encoding ambiguities (missing length prefixes, variant tags, field boundaries): nested byte vectors split at
 //! different places, tuples with shifted bytes, Option nesting, strings/maps with shifted keys and values, ref targets,
 //! remote refs, and View / Operation values differing in one field or with an entry moved between fields.
+//!
+//! Round trip (the first sentence of C16, on the parts NOT under Verus contract: view_to_proto / view_from_proto,
+//! operation_to_proto / operation_from_proto, the legacy bookmark form): every View / Operation value of the families is
+//! written to a real `SimpleOpStore` in a temp dir through the `OpStore` trait and read back by the returned id:
+//!   read(write(x)) == x;  the id is blake2b_hash(x);  x != y => ids differ.
+//! Values are brought into the shape the store accepts, by an injective map (stated, not hidden): operation and view ids
+//! are padded to 64 bytes, an operation gets at least one parent (write_operation asserts it); a View never stores an
+//! absent local bookmark (absence is the missing key; the legacy bookmark form drops it), so those entries are skipped.
 use crate::util::{catch, hit, none, Rng};
 use jj_lib::backend::{CommitId, MillisSinceEpoch, Timestamp};
 use jj_lib::content_hash::{blake2b_hash, ContentHash, DigestUpdate};
 use jj_lib::merge::Merge;
-use jj_lib::op_store::{Operation, OperationId, OperationMetadata, RefTarget, RemoteRef, RemoteRefState, RemoteView, TimestampRange, View, ViewId};
+use jj_lib::object_id::ObjectId as _;
+use jj_lib::op_store::{OpStore, Operation, OperationId, OperationMetadata, RefTarget, RemoteRef, RemoteRefState, RemoteView, RootOperationData, TimestampRange, View, ViewId};
+use jj_lib::simple_op_store::SimpleOpStore;
 use jj_lib::ref_name::{GitRefNameBuf, RefNameBuf, RemoteNameBuf, WorkspaceNameBuf};
 use serde_json::{json, Value};
 use std::collections::{BTreeMap, HashMap, HashSet};
@@ -109,6 +119,38 @@ fn views(seed: u64) -> Vec<View> {
     for n in names { for c in [cid(&[]), cid(&[1]), cid(&[2])] { let mut v = base_view(); v.wc_commit_ids.insert(WorkspaceNameBuf::from(n), c); out.push(v); } }
     for hs in lists(&[cid(&[]), cid(&[1]), cid(&[2]), cid(&[1, 2])], 2) { let mut v = base_view(); v.head_ids = hs.into_iter().collect(); out.push(v); }
     { let mut v = base_view(); v.remote_views.insert(RemoteNameBuf::from("a"), RemoteView::default()); out.push(v); }
+    // git_heads holding the default workspace AND other workspaces (and each alone), resolved and conflicted
+    for t1 in &tg[1..] { for t2 in &tg[1..4] {
+        for others in [vec![], vec!["a"], vec!["a", "second"], vec!["zz"]] { for with_default in [false, true] {
+            if others.is_empty() && !with_default { continue; }
+            let mut v = base_view();
+            if with_default { v.git_heads.insert(WorkspaceNameBuf::from("default"), t1.clone()); }
+            for o in &others { v.git_heads.insert(WorkspaceNameBuf::from(*o), t2.clone()); }
+            out.push(v);
+        } }
+    } }
+    for ws in [vec!["default"], vec!["default", "a"], vec!["a", "b"], vec!["default", "a", "\u{e9}"]] {
+        let mut v = base_view();
+        for (k, w) in ws.iter().enumerate() { v.wc_commit_ids.insert(WorkspaceNameBuf::from(*w), cid(&[k as u8 + 1])); v.git_heads.insert(WorkspaceNameBuf::from(*w), tg[1 + k % 4].clone()); }
+        out.push(v);
+    }
+    // several remotes with several bookmarks and tags in both tracking states, together with local refs of the same names
+    for nrem in 1..=3usize { for nref in 1..=3usize { for variant in 0..4usize {
+        let mut v = base_view();
+        for r in 0..nrem {
+            let mut rv = RemoteView::default();
+            for k in 0..nref {
+                let name = ["a", "b", "\u{e9}x"][k];
+                let t = tg[(r + k + variant) % 5].clone();
+                let st = if (r + k + variant) % 2 == 0 { RemoteRefState::New } else { RemoteRefState::Tracked };
+                if variant % 2 == 0 || k != 1 { rv.bookmarks.insert(RefNameBuf::from(name), RemoteRef { target: t.clone(), state: st }); }
+                if variant >= 1 { rv.tags.insert(RefNameBuf::from(name), RemoteRef { target: tg[(r + 2 * k + 1) % 5].clone(), state: st }); }
+            }
+            v.remote_views.insert(RemoteNameBuf::from(["origin", "git", "up/stream"][r]), rv);
+        }
+        if variant >= 2 { v.local_bookmarks.insert(RefNameBuf::from("a"), tg[3].clone()); v.local_tags.insert(RefNameBuf::from("b"), tg[4].clone()); v.local_bookmarks.insert(RefNameBuf::from("only-local"), tg[1].clone()); }
+        out.push(v);
+    } } }
     // random composites
     for _ in 0..60 {
         let mut v = base_view();
@@ -140,6 +182,25 @@ fn operations() -> Vec<Operation> {
         o.metadata.time = TimestampRange { start: Timestamp { timestamp: MillisSinceEpoch(a), tz_offset: tz1 }, end: Timestamp { timestamp: MillisSinceEpoch(b), tz_offset: tz2 } };
         out.push(o);
     }
+    // negative tz offsets, pre-epoch and far timestamps, sign-mirrored pairs
+    for (a, tz) in [(-1i64, -1i32), (1, 1), (-86_400_000, -720), (86_400_000, 720), (i64::MIN, i32::MIN), (i64::MAX, i32::MAX), (-1_000_000_000_000, 330), (1_000_000_000_000, -330)] {
+        let mut o = base_op();
+        o.metadata.time = TimestampRange { start: Timestamp { timestamp: MillisSinceEpoch(a), tz_offset: tz }, end: Timestamp { timestamp: MillisSinceEpoch(a.saturating_add(5)), tz_offset: tz } };
+        out.push(o);
+    }
+    // non-ASCII and empty strings in every text field
+    for (d, h, u) in [("\u{e9}", "", ""), ("", "\u{e9}", ""), ("", "", "\u{e9}"), ("\u{6f22}\u{5b57}\n\ttab", "h\u{f6}st", "\u{fc}ser@x"), ("multi\nline\n", "", "")] {
+        let mut o = base_op(); o.metadata.description = d.into(); o.metadata.hostname = h.into(); o.metadata.username = u.into();
+        o.metadata.workspace_name = Some(WorkspaceNameBuf::from(d)); o.metadata.attributes = BTreeMap::from([(d.to_string(), u.to_string()), ("k".to_string(), h.to_string())]);
+        out.push(o);
+    }
+    // many parents (order matters, duplicates allowed)
+    for n in [3usize, 5, 17] { for rev in [false, true] {
+        let mut ps: Vec<OperationId> = (0..n).map(|i| OperationId::new(vec![i as u8, (i * 7) as u8])).collect();
+        if rev { ps.reverse(); }
+        let mut o = base_op(); o.parents = ps; out.push(o);
+    } }
+    { let mut o = base_op(); o.parents = vec![OperationId::new(vec![1]); 3]; out.push(o); }
     { let mut o = base_op(); o.metadata.is_snapshot = true; out.push(o); }
     for w in ["", "a", "ab"] { let mut o = base_op(); o.metadata.workspace_name = Some(WorkspaceNameBuf::from(w)); out.push(o); }
     for m in string_maps() { let mut o = base_op(); o.metadata.attributes = m; out.push(o); }
@@ -157,6 +218,54 @@ fn string_maps() -> Vec<BTreeMap<String, String>> {
     for k in &ss { for v in &ss { out.push(BTreeMap::from([(k.clone(), v.clone())])); } }
     for k1 in ["a", "b"] { for k2 in ["ab", ""] { for v1 in ["", "a"] { for v2 in ["", "b"] { out.push(BTreeMap::from([(k1.to_string(), v1.to_string()), (k2.to_string(), v2.to_string())])); } } } }
     out
+}
+
+// ---------------------------------------------------------------- round trip through the real op store
+fn block_on<F: std::future::Future>(f: F) -> F::Output {
+    let mut f = std::pin::pin!(f);
+    let mut cx = std::task::Context::from_waker(std::task::Waker::noop());
+    loop { if let std::task::Poll::Ready(x) = f.as_mut().poll(&mut cx) { return x; } }
+}
+/// injective padding of a short id to the 64 bytes the store requires: bytes, zeros, length in the last byte
+fn pad64(b: &[u8]) -> Vec<u8> { let mut v = b.to_vec(); v.resize(63, 0); v.push(b.len() as u8 + 1); v }
+fn storable_op(o: &Operation) -> Operation {
+    let mut o = o.clone();
+    o.view_id = ViewId::new(pad64(o.view_id.as_bytes()));
+    o.parents = if o.parents.is_empty() { vec![OperationId::new(vec![0xEE; 64])] } else { o.parents.iter().map(|p| OperationId::new(pad64(p.as_bytes()))).collect() };
+    o
+}
+fn storable_view(v: &View) -> bool { v.local_bookmarks.values().all(|t| t.is_present()) }
+
+/// returns (kind, index, report); `only` = (is_view, index) for a replay
+fn check_roundtrip(seed: u64, only: Option<(bool, usize)>) -> Option<(&'static str, usize, Value)> {
+    crate::util::fast_env();
+    let dir = match tempfile::tempdir() { Ok(d) => d, Err(e) => return Some(("view", 0, json!({"observed": format!("cannot create temp dir: {e}"), "required": "a temp dir"}))) };
+    let store = match SimpleOpStore::init(dir.path(), RootOperationData { root_commit_id: cid(&[0; 20]) }) { Ok(s) => s, Err(e) => return Some(("view", 0, json!({"observed": format!("SimpleOpStore::init: {e}"), "required": "Ok"}))) };
+    if only.is_none_or(|(is_view, _)| is_view) {
+        let vs = views(seed);
+        let mut ids: HashMap<Vec<u8>, usize> = HashMap::new();
+        for (i, v) in vs.iter().enumerate() {
+            if only.is_some_and(|(_, k)| k != i) || !storable_view(v) { continue; }
+            let r = catch(std::panic::AssertUnwindSafe(|| { let s: &SimpleOpStore = &store; let id = block_on(s.write_view(v)).map_err(|e| format!("write_view: {e}"))?; let back = block_on(s.read_view(&id)).map_err(|e| format!("read_view: {e}"))?; Ok::<_, String>((id, back)) }));
+            let (id, back) = match r { Ok(Ok(x)) => x, Ok(Err(e)) => return Some(("view", i, json!({"value": format!("{v:?}"), "observed": e, "required": "a written view can be read back by its id"}))), Err(p) => return Some(("view", i, json!({"value": format!("{v:?}"), "observed": format!("panic: {p}"), "required": "no panic"}))) };
+            if back != *v { return Some(("view", i, json!({"value": format!("{v:?}"), "observed": format!("read back {back:?}"), "required": "read_view(write_view(v)) == v"}))); }
+            if id.as_bytes() != &blake2b_hash(v)[..] { return Some(("view", i, json!({"value": format!("{v:?}"), "observed": format!("id {}", id.hex()), "required": "the id is the content hash of the value"}))); }
+            if let Some(j) = ids.insert(id.to_bytes(), i) { if vs[j] != *v { return Some(("view", i, json!({"value": format!("{v:?}"), "other": format!("{:?}", vs[j]), "observed": format!("both stored under id {}", id.hex()), "required": "different views get different ids"}))); } }
+        }
+    }
+    if only.is_none_or(|(is_view, _)| !is_view) {
+        let os: Vec<Operation> = operations().iter().map(storable_op).collect();
+        let mut ids: HashMap<Vec<u8>, usize> = HashMap::new();
+        for (i, o) in os.iter().enumerate() {
+            if only.is_some_and(|(_, k)| k != i) { continue; }
+            let r = catch(std::panic::AssertUnwindSafe(|| { let s: &SimpleOpStore = &store; let id = block_on(s.write_operation(o)).map_err(|e| format!("write_operation: {e}"))?; let back = block_on(s.read_operation(&id)).map_err(|e| format!("read_operation: {e}"))?; Ok::<_, String>((id, back)) }));
+            let (id, back) = match r { Ok(Ok(x)) => x, Ok(Err(e)) => return Some(("operation", i, json!({"value": format!("{o:?}"), "observed": e, "required": "a written operation can be read back by its id"}))), Err(p) => return Some(("operation", i, json!({"value": format!("{o:?}"), "observed": format!("panic: {p}"), "required": "no panic"}))) };
+            if back != *o { return Some(("operation", i, json!({"value": format!("{o:?}"), "observed": format!("read back {back:?}"), "required": "read_operation(write_operation(o)) == o"}))); }
+            if id.as_bytes() != &blake2b_hash(o)[..] { return Some(("operation", i, json!({"value": format!("{o:?}"), "observed": format!("id {}", id.hex()), "required": "the id is the content hash of the value"}))); }
+            if let Some(j) = ids.insert(id.to_bytes(), i) { if os[j] != *o { return Some(("operation", i, json!({"value": format!("{o:?}"), "other": format!("{:?}", os[j]), "observed": format!("both stored under id {}", id.hex()), "required": "different operations get different ids"}))); } }
+        }
+    }
+    None
 }
 
 const FAMILIES: [&str; 14] = ["Vec<Vec<u8>>", "(Vec<u8>, Vec<u8>)", "Option<Option<Option<u8>>>", "Vec<Option<u8>>", "(Option<Vec<u8>>, Option<u8>)", "(String, String)", "Vec<String>", "BTreeMap<String, String>",
@@ -189,7 +298,7 @@ fn run_family(k: usize, seed: u64, only: Option<(usize, usize)>) -> Option<(usiz
         10 => { let v: Vec<RemoteRef> = targets().into_iter().take(60).flat_map(|t| [RemoteRefState::New, RemoteRefState::Tracked].into_iter().map(move |s| RemoteRef { target: t.clone(), state: s })).collect(); check_family(&v, only) }
         11 => {
             let mut v: Vec<((bool, u8, u32), (i32, u64, i64))> = vec![];
-            for b in [false, true] { for x in [0u8, 1] { for y in [0u32, 1, 256, 1 << 24] { for z in [0i32, 1, -1, 256] { for w in [0u64, 1, 1 << 32] { for q in [0i64, -1, 1 << 40] { v.push(((b, x, y), (z, w, q))); } } } } } }
+            for b in [false, true] { for x in [0u8, 1] { for y in [0u32, 1, 256, 1 << 24] { for z in [0i32, 1, -1, 256] { for w in [0u64, 1, 1 << 32] { for q in [0i64, -1, 1, 1 << 40, -(1 << 40)] { v.push(((b, x, y), (z, w, q))); } } } } } }
             check_family(&v, only)
         }
         12 => check_family(&views(seed), only),
@@ -198,6 +307,10 @@ fn run_family(k: usize, seed: u64, only: Option<(usize, usize)>) -> Option<(usiz
 }
 
 pub fn run(_pid: &str, func: &str, replay: Option<Value>, seed: u64) -> Value {
+    if let Some(inp) = &replay { if inp["kind"] == "roundtrip" {
+        let is_view = inp["what"] == "view";
+        return match check_roundtrip(inp["seed"].as_u64().unwrap_or(0), Some((is_view, inp["i"].as_u64().unwrap_or(0) as usize))) { Some((_, _, v)) => hit(inp.clone(), v, if is_view { "SimpleOpStore::write_view/read_view" } else { "SimpleOpStore::write_operation/read_operation" }), None => none("replayed input satisfies the executable contract on the current build") };
+    } }
     if let Some(inp) = &replay {
         let k = FAMILIES.iter().position(|f| Some(*f) == inp["family"].as_str()).unwrap_or(0);
         let only = (inp["i"].as_u64().unwrap_or(0) as usize, inp["j"].as_u64().unwrap_or(0) as usize);
@@ -212,5 +325,8 @@ pub fn run(_pid: &str, func: &str, replay: Option<Value>, seed: u64) -> Value {
             return hit(json!({"kind": "pair", "family": FAMILIES[k], "i": i, "j": j, "seed": seed}), v, &format!("ContentHash::hash for {}", FAMILIES[k]));
         }
     }
-    json!({"found": false, "note": "scope exhausted: all pairs within 14 families (nested byte vectors with <= 3 chunks of <= 2 bytes; pairs of byte strings <= 3 over {0,1,8}; Option nestings; string pairs/lists/maps with shifted keys and values; hash maps/sets in different insertion orders; ref targets of 1/3 terms over 6 term values; remote refs; scalar tuples; ~500 View values and ~250 Operation values differing in one field / one moved entry): equal values <=> equal encoding and blake2b id", "scope": "small"})
+    if let Some((what, i, v)) = check_roundtrip(seed, None) {
+        return hit(json!({"kind": "roundtrip", "what": what, "i": i, "seed": seed}), v, if what == "view" { "SimpleOpStore::write_view/read_view" } else { "SimpleOpStore::write_operation/read_operation" });
+    }
+    json!({"found": false, "note": "scope exhausted: all pairs within 14 families (nested byte vectors with <= 3 chunks of <= 2 bytes; pairs of byte strings <= 3 over {0,1,8}; Option nestings; string pairs/lists/maps with shifted keys and values; hash maps/sets in different insertion orders; ref targets of 1/3 terms over 6 term values; remote refs; scalar tuples; View and Operation values differing in one field / one moved entry, incl. default+other workspaces in git_heads, several remotes with bookmarks and tags, conflicted targets, negative tz / pre-epoch times, non-ASCII strings, many parents): equal values <=> equal encoding and blake2b id; every such View and Operation written to a real SimpleOpStore and read back: identical value, id == content hash, distinct ids", "scope": "small"})
 }
